@@ -41,6 +41,14 @@ Theorem c11_stream_valid : forall tags,
 Proof. exact spec_parse_flv_file. Qed.
 Print Assumptions c11_stream_valid.
 
+(* a recording written over an existing file of the same name (re-publish within one second) is the new
+   stream and nothing else: no byte of the old file survives behind the last tag *)
+Theorem c11_record_replaces : forall old tags,
+  Forall spec_tag_wf tags ->
+  spec_parse_flv (flv_record old (map pack_spec_tag tags)) = Some tags.
+Proof. intros old tags H. rewrite flv_record_is_file. exact (spec_parse_flv_file tags H). Qed.
+Print Assumptions c11_record_replaces.
+
 (* lal's own file reader on lal's file writer *)
 Theorem c11_file_roundtrip : forall tags,
   Forall spec_tag_wf tags ->
